@@ -813,21 +813,35 @@ class Machine:
                 tm.tok[f] = self.fresh_tok()
                 touched.add(id(tm))
             elif kind_choice == 'reunit' and kinds:
+                # Equality under unit conversion is an astropy float matter
+                # and is not transitive; the harness therefore uses exactly
+                # one alternative unit per menu token, and only when astropy
+                # itself reports equality with the canonical value in both
+                # directions.  A second reunit restores the canonical value.
                 import astropy.units as u
-                cand = [f for f, k in kinds.items() if k in ('angle', 'asize')]
+                cand = [f for f, k in kinds.items()
+                        if k in ('angle', 'asize')
+                        and isinstance(tm.tok[f], int)]
                 if not cand:
                     return
                 f = rng.pick(sorted(cand))
-                q = getattr(to, f)
-                unit = rng.pick([u.rad, u.arcmin, u.arcsec, u.deg, u.mas])
-                q2 = q.to(unit)
-                if not (bool(q == q2) and bool(q2 == q)):
-                    self.ev(slot=a, what=f'{f}.to({unit}) not exactly equal '
-                            'per astropy; skipped', outcome='skipped')
-                    return
-                setattr(to, f, q2)
+                canonical = mk_value(kinds[f], tm.tok[f])
+                units = [u.rad, u.arcmin, u.arcsec, u.deg, u.mas]
+                units = [x for x in units if x != canonical.unit]
+                unit = units[tm.tok[f] % len(units)]
+                if getattr(to, f).unit != canonical.unit:
+                    setattr(to, f, canonical)
+                    what += f'{f} restored to {canonical.unit}'
+                else:
+                    q2 = canonical.to(unit)
+                    if not (bool(canonical == q2) and bool(q2 == canonical)):
+                        self.ev(slot=a, what=f'{f}.to({unit}) not exactly '
+                                'equal per astropy; skipped',
+                                outcome='skipped')
+                        return
+                    setattr(to, f, q2)
+                    what += f'{f} re-expressed in {unit}'
                 touched.add(id(tm))
-                what += f'{f} re-expressed in {unit}'
                 self.state('reunit', tm.cls, f, str(unit))
             else:
                 return
